@@ -7,7 +7,8 @@ ASSUMPTIONS = _bc.ASSUMPTIONS
 
 
 def run(ck):
-    _bc.run_bc(ck, "c16", set("c16_bound c16_slots_not_lost c16_quiescent_dequeuing c06_forward_intact c20_acted_on c15_resend_first".split()))  # the last three added by the audit (audit/C16.md), with the harness-side clause c16_drained
+    _bc.run_bc(ck, "c16", set("c16_bound c16_slots_not_lost c16_quiescent_dequeuing c06_forward_intact c20_acted_on c15_resend_first c08_popped_is_saved c15_forward_link".split()))  # c08_popped_is_saved: "every queued message is eventually delivered" — a message taken from the queue is recorded for (re)delivery before the connection can end (seed C16-10)
+    #  # the last three added by the audit (audit/C16.md), with the harness-side clause c16_drained
     if ck.replay:
         return
     ev, di = ck.evaluations, ck.distinct
